@@ -11,6 +11,7 @@ package crosscompile
 
 //@ func extractTarGz
 //@ params tarGzFile dest
+//@ locals file err gzr err tr header err target err err f err err
 //@ props C20
 //@ effects os: Open, OpenFile, MkdirAll, File.Close
 //@ effects os/exec:
@@ -37,6 +38,7 @@ package crosscompile
 
 //@ func extractZip
 //@ params zipFile dest
+//@ locals r err decompress file
 //@ props C20
 //@ effects os:
 //@ effects os/exec:
